@@ -399,6 +399,18 @@ def decode_plain_stream(data):
     return out
 
 
+def client_built_elsewhere(**kw):
+    """An APIClient constructed while ANOTHER event loop is the current one (an application that builds its objects before
+    asyncio.run(), or reuses them in a second run); that loop is never run."""
+    from aioesphomeapi.client import APIClient
+    other = asyncio.new_event_loop()
+    asyncio.set_event_loop(other)
+    try:
+        return APIClient("10.0.0.1", 6053, None, **kw), other
+    finally:
+        asyncio.set_event_loop(None)
+
+
 def run(coro_fn):
     """Run coro_fn(loop) on a fresh VLoop and return its result."""
     loop = VLoop()
@@ -417,11 +429,11 @@ def run(coro_fn):
 
 
 async def connected_client(loop, net, *, login=False, password=None, expected_name=None, keepalive=20.0,
-                           api=(1, 10), name="dev", on_stop=None):
+                           api=(1, 10), name="dev", on_stop=None, client=None):
     """APIClient with an established plaintext session over SimNet. Returns (client, transport)."""
     from aioesphomeapi import api_pb2 as pb
     from aioesphomeapi.client import APIClient
-    cli = APIClient("10.0.0.1", 6053, password, keepalive=keepalive, expected_name=expected_name)
+    cli = client if client is not None else APIClient("10.0.0.1", 6053, password, keepalive=keepalive, expected_name=expected_name)
     await cli.start_connection(on_stop=on_stop)
     task = asyncio.ensure_future(cli.finish_connection(login=login))
     await drain(loop)
